@@ -85,7 +85,7 @@ fn native_for<G: ark_ec::AffineRepr + 'static>(kind: &str, rp: &serde_json::Valu
             let case: scen_c10::IppCase = serde_json::from_value(rp["case"].clone()).unwrap();
             replay::c10_native::<G>(&case, seed, m, torsion)
         }
-        "c13" => replay::c13_native::<G>(rp["variant"].as_str().unwrap(), seed, m),
+        "c13" => replay::c13_native::<G>(rp["variant"].as_str().unwrap(), seed, m, torsion),
         "c03" | "c18" => replay::diff_native::<G>(&shape(), seed, torsion),
         "c16" => scen_c16::enumerate_opt::<G>(rp["max1"].as_u64().unwrap() as usize, rp["max2"].as_u64().unwrap() as usize, seed, |s| Box::new(job::PlainVals::<r1cs::FOf<G>>::new(HashMap::new(), s)), true).1,
         "c04bits" => scen_c04::bitflip_native::<G>(seed, rp["stride"].as_u64().unwrap_or(3) as usize),
@@ -342,7 +342,11 @@ fn tasks_for(prop: &str, tier: &str, seed: u64) -> Vec<Task> {
             let mut out = vec![];
             // concrete companion: every single-field alteration, negation, round insertion / removal and the
             // coordinated forgeries (incl. a batch of opposite alterations), natively
-            for (ci, case) in scen_c04::c04_cases(false).into_iter().filter(|c| ["two_gates_A_I1", "two_phase_A_I2", "three_gates_pad4_R0"].contains(&c.name.as_str())).enumerate() {
+            for (ci, case) in scen_c04::c04_cases(false).into_iter().filter({
+                let mut seen = std::collections::HashSet::new();
+                // one native run per skeleton (the native companion alters every field itself)
+                move |c: &scen_c04::C04Case| !c.swap && seen.insert(c.shape.name.clone())
+            }).enumerate() {
                 let c = ["secq256k1", "zorro", "curve25519"][(ci + seed as usize) % 3].to_string();
                 let replay = serde_json::json!({"kind": "c04", "case": case, "seed": seed});
                 out.push(Task {
@@ -397,7 +401,7 @@ fn tasks_for(prop: &str, tier: &str, seed: u64) -> Vec<Task> {
         "C05" => {
             let mut out = vec![];
             // concrete companion: coefficient / constant deviations natively, alone and as a +d / -d pair in one batch
-            for (ci, case) in scen_c05::c05_cases(false).into_iter().filter(|c| matches!(c.dev, scen_c05::Dev::Coeff(_) | scen_c05::Dev::Const(_))).enumerate() {
+            for (ci, case) in scen_c05::c05_cases(false).into_iter().filter(|c| matches!(c.dev, scen_c05::Dev::Coeff(_) | scen_c05::Dev::Const(_) | scen_c05::Dev::AllConsts | scen_c05::Dev::AllCoeffs)).enumerate() {
                 let c = ["secq256k1", "zorro", "curve25519"][(ci + seed as usize) % 3].to_string();
                 let replay = serde_json::json!({"kind": "c05", "case": case, "seed": seed});
                 out.push(Task {
@@ -495,6 +499,24 @@ fn tasks_for(prop: &str, tier: &str, seed: u64) -> Vec<Task> {
         }
         "C07" => {
             let mut out = vec![];
+            // concrete companion: batch verdict vs individual verdicts, correlated offsets on copies, and long
+            // batches (9 and 17 members) natively
+            for (ci, case) in scen_c07::c07_cases(false).into_iter().filter(|c| ["two_honest_mixed_sizes", "gate_free_members_only_honest_and_opaque", "phase2_growth_first"].contains(&c.name.as_str())).enumerate() {
+                let c = ["secq256k1", "zorro", "curve25519"][(ci + seed as usize) % 3].to_string();
+                let replay = serde_json::json!({"kind": "c07", "case": case, "seed": seed});
+                out.push(Task {
+                    name: format!("C07:native_{}:{}", case.name, c),
+                    replay: replay.clone(),
+                    run: Box::new(move || {
+                        let checks = match c.as_str() {
+                            "secq256k1" => replay::c07_native::<Secq>(&case, seed, HashMap::new()),
+                            "zorro" => replay::c07_native::<Zorro>(&case, seed, HashMap::new()),
+                            _ => replay::c07_native::<Ed>(&case, seed, HashMap::new()),
+                        };
+                        native_job("C07", &format!("native_{}", case.name), &c, seed, checks, replay)
+                    }),
+                });
+            }
             for (k, case) in scen_c07::c07_cases(thorough).into_iter().enumerate() {
                 let cs: Vec<&str> = if thorough { curves.clone() } else { vec![["secq256k1", "zorro", "curve25519"][k % 3]] };
                 for c in cs {
@@ -551,17 +573,40 @@ fn tasks_for(prop: &str, tier: &str, seed: u64) -> Vec<Task> {
         }
         "C13" => {
             let mut out = vec![];
-            for variant in ["default_bases", "random_bases", "default_bases_literals", "random_bases_literals"] {
+            for variant in ["default_bases", "random_bases", "default_bases_literals", "random_bases_literals", "identity_blinding_base_literals", "identity_value_base_literals", "identity_blinding_base", "torsion_bases_literals", "torsion_bases"] {
                 for c in ["secq256k1", "zorro", "curve25519"] {
+                    if variant.starts_with("torsion") && c != "curve25519" {
+                        continue;
+                    }
                     let (variant, c) = (variant.to_string(), c.to_string());
+                    let (variant0, c0) = (variant.clone(), c.clone());
                     out.push(Task {
                         name: format!("C13:{}:{}", variant, c),
                         replay: serde_json::json!({"kind": "c13", "variant": variant, "seed": seed}),
-                        run: Box::new(move || {
-                            use scen_c10::job_c13 as f;
-                            on_curve!(c.as_str(), f, &variant, seed, &c)
+                        run: Box::new(move || match c.as_str() {
+                            "secq256k1" => scen_c10::job_c13::<Secq>(&variant, seed, &c, None),
+                            "zorro" => scen_c10::job_c13::<Zorro>(&variant, seed, &c, None),
+                            _ => scen_c10::job_c13::<Ed>(&variant, seed, &c, Some(ed_torsion())),
                         }),
                     });
+                    // concrete companion on the plain curve: the carriers' shadow arithmetic does not go through the curve
+                    // configuration's own affine scalar multiplication, the real `PedersenGens::commit` does
+                    if variant0.ends_with("literals") {
+                        let (variant, c) = (variant0.clone(), c0.clone());
+                        let replay = serde_json::json!({"kind": "c13", "variant": variant, "seed": seed});
+                        out.push(Task {
+                            name: format!("C13:native_{}:{}", variant, c),
+                            replay: replay.clone(),
+                            run: Box::new(move || {
+                                let checks = match c.as_str() {
+                                    "secq256k1" => replay::c13_native::<Secq>(&variant, seed, HashMap::new(), None),
+                                    "zorro" => replay::c13_native::<Zorro>(&variant, seed, HashMap::new(), None),
+                                    _ => replay::c13_native::<Ed>(&variant, seed, HashMap::new(), Some(ed_torsion())),
+                                };
+                                native_job("C13", &format!("native_{}", variant), &c, seed, checks, replay)
+                            }),
+                        });
+                    }
                 }
             }
             out
@@ -646,7 +691,12 @@ fn main() {
             let cof_inv: num_bigint::BigUint = <Parameters as CurveConfig>::COFACTOR_INV.into_bigint().into();
             let p: num_bigint::BigUint = Fq::MODULUS.into();
             let r: num_bigint::BigUint = Fr::MODULUS.into();
-            println!("{}", serde_json::json!({"p": p.to_string(), "r": r.to_string(), "a": dec(<Parameters as SWCurveConfig>::COEFF_A), "b": dec(<Parameters as SWCurveConfig>::COEFF_B), "gx": dec(g.x), "gy": dec(g.y), "cofactor": cof, "cofactor_inv": cof_inv.to_string()}));
+            // every exported scalar- / base-field item of the zorro module
+            let r_cfg: num_bigint::BigUint = <ark_bulletproofs::curve::zorro::FrConfig as ark_ff::MontConfig<4>>::MODULUS.into();
+            let p_cfg: num_bigint::BigUint = <ark_bulletproofs::curve::zorro::FqConfig as ark_ff::MontConfig<4>>::MODULUS.into();
+            let r_curve: num_bigint::BigUint = <<Parameters as CurveConfig>::ScalarField as PrimeField>::MODULUS.into();
+            let p_curve: num_bigint::BigUint = <<Parameters as CurveConfig>::BaseField as PrimeField>::MODULUS.into();
+            println!("{}", serde_json::json!({"r_frconfig": r_cfg.to_string(), "p_fqconfig": p_cfg.to_string(), "r_curveconfig": r_curve.to_string(), "p_curveconfig": p_curve.to_string(), "p": p.to_string(), "r": r.to_string(), "a": dec(<Parameters as SWCurveConfig>::COEFF_A), "b": dec(<Parameters as SWCurveConfig>::COEFF_B), "gx": dec(g.x), "gy": dec(g.y), "cofactor": cof, "cofactor_inv": cof_inv.to_string()}));
         }
         Some("zorro-mul-by-a") => {
             // native evaluation of the specialised routine against multiplication by the declared coefficient
@@ -701,7 +751,10 @@ fn main() {
                     for (k, m) in [(0u64, model.clone()), (1, HashMap::new()), (2, HashMap::new()), (3, HashMap::new())] {
                         let (p_ok, v_ok, hon) = scen_r1cs::replay_plain::<Secq>(&shape, &err, seed + k, cp, cv, m);
                         let expect = if hon == 3 { true } else if hon == 2 { false } else { expect };
-                        let wrong = !p_ok || v_ok != expect;
+                        let wrong = !p_ok || v_ok != expect || hon == 4;
+                        if hon == 4 {
+                            lines.push(format!("native secq256k1 run {}: a role did not run the registered randomized closures exactly once in registration order", k));
+                        }
                         lines.push(format!("native secq256k1 run {} ({}): prove_ok={} verify_ok={} expected_verify_ok={} -> {}", k, if k == 0 { "solver model" } else { "random values" }, p_ok, v_ok, expect, if wrong { "WRONG VERDICT" } else { "as expected" }));
                         any_wrong |= wrong;
                     }
